@@ -87,6 +87,19 @@ def package_table(draw):
     return table, asts
 
 
+def meaning(entry):
+    """the meaning text of a value pool entry {"q", "expr"[, "m"]}; maus only demands a str, the empty one included"""
+    return entry.get("m", "meaning of " + entry["q"])
+
+
+def with_meaning(draw, entry):
+    """sometimes gives the entry an unusual (but legal) meaning text"""
+    text = draw(st.sampled_from([None, None, None, "", " ", "0", entry["q"]]))
+    if text is not None:
+        entry["m"] = text
+    return entry
+
+
 @st.composite
 def g_tree(draw, max_nodes=40, max_depth=2, soll_bias=False, min_freetext=0, expr=None):
     """deep AHB: 1-3 root groups, nested groups, segments, free-text / value-pool data elements"""
@@ -105,7 +118,7 @@ def g_tree(draw, max_nodes=40, max_depth=2, soll_bias=False, min_freetext=0, exp
             return {"t": "ft", "d": name("D", parent), "expr": draw(expression()),
                     "inp": draw(st.sampled_from([None, "", "x", "yy", "2022-01-01T00:00:00+01:00"]))}  # fmt: skip
         qualifiers = draw(st.lists(st.sampled_from(QUALIFIERS), min_size=1, max_size=5, unique=True))
-        pool = [{"q": q, "expr": draw(expression())} for q in qualifiers]
+        pool = [with_meaning(draw, {"q": q, "expr": draw(expression())}) for q in qualifiers]
         return {"t": "vp", "d": name("V", parent), "pool": pool,
                 "inp": draw(st.sampled_from([None, "", "Q", "zz"] + qualifiers + QUALIFIERS[:2]))}  # fmt: skip
 
@@ -220,7 +233,7 @@ def build_element(element):
         discriminator=element["d"],
         data_element_id="0001",
         entered_input=element["inp"],
-        value_pool=[ValuePoolEntry(qualifier=e["q"], meaning="meaning of " + e["q"], ahb_expression=e["expr"]["s"]) for e in element["pool"]],
+        value_pool=[ValuePoolEntry(qualifier=e["q"], meaning=meaning(e), ahb_expression=e["expr"]["s"]) for e in element["pool"]],
     )
 
 
